@@ -10,6 +10,15 @@ use serde_json::{json, Value};
 
 pub struct C04;
 
+/// A case is either a model program with goals, or goals (text) over the fixed const / lifetime / int-float program
+/// of C28 (no reference model is needed for a differential, so the text level is enough there).
+#[derive(Clone, Debug, serde::Serialize, serde::Deserialize)]
+#[serde(untagged)]
+pub enum Case {
+    Rich { rich_goals: Vec<String> },
+    Horn(PG),
+}
+
 /// Some((class, message)) if the two answers are incompatible in the sense of the property
 pub fn incompatible(names: &Names, peeled: &Peeled, slg: &Option<Solution<chalk_integration::interner::ChalkIr>>, rec: &Option<Solution<chalk_integration::interner::ChalkIr>>, out: &mut CaseOut) -> Option<(String, String)> {
     match (slg, rec) {
@@ -45,12 +54,12 @@ pub fn incompatible(names: &Names, peeled: &Peeled, slg: &Option<Solution<chalk_
 }
 
 impl Property for C04 {
-    type Case = PG;
+    type Case = Case;
     fn id(&self) -> &'static str {
         "C04"
     }
     fn rule(&self) -> String {
-        "case = generated program (60 %: F-horn / auto / coinductive / supertraits, negative impls, enums; 10 %: environment fragment of C06 with hypothesis goals; 20 %: associated-type fragment of C07 with Normalize / projection goals; 10 %: built-in-trait fragment of C08) with 4-6 goals; each goal solved by a fresh SLG and a fresh recursive solver; oracle = compatibility relation of the property (no None-vs-Unique, equal Unique substitutions after erasing lifetimes, Unique is an instance of the other's definite guidance). Non-trivial = (program, goal) where at least one answer is Unique/None and the goal has a quantifier/if/not/conjunction, or the two rendered answers differ; distinct by hash of (program text, goal text).".into()
+        "case = generated program (60 %: F-horn / auto / coinductive / supertraits, negative impls, enums; 10 %: environment fragment of C06 with hypothesis goals; 17 %: associated-type fragment of C07 with Normalize / projection goals; 8 %: built-in-trait fragment of C08) with 4-6 goals, or (17 %) four goals — from a pool or generated, with solver-opened quantifiers — over a fixed program with lifetime, const, integer and float unknowns, compared at the text level; each goal solved by a fresh SLG and a fresh recursive solver; oracle = compatibility relation of the property (no None-vs-Unique, equal Unique substitutions after erasing lifetimes, Unique is an instance of the other's definite guidance). Non-trivial = (program, goal) where at least one answer is Unique/None and the goal has a quantifier/if/not/conjunction, or the two rendered answers differ; distinct by hash of (program text, goal text).".into()
     }
     fn assumptions(&self) -> Vec<String> {
         vec!["programs are only lowered, not coherence/WF checked (the property says: pass lowering)".into(), "lifetime constraints are not compared".into()]
@@ -58,25 +67,108 @@ impl Property for C04 {
     fn cases_per_shard(&self, tier: Tier) -> u32 {
         tier.pick(600, 6000)
     }
-    fn decode(&self, t: &mut Tape, _tier: Tier) -> PG {
+    fn decode(&self, t: &mut Tape, _tier: Tier) -> Case {
         // no reference semantics is needed here, so every fragment that has a generator takes part
-        match t.choose(10) {
-            6 => super::c06::C06.decode(t, _tier).pg,
-            7 | 8 => super::c07::C07.decode(t, _tier),
-            9 => super::c08::C08.decode(t, _tier),
+        match t.choose(12) {
+            6 => Case::Horn(super::c06::C06.decode(t, _tier).pg),
+            7 | 8 => Case::Horn(super::c07::C07.decode(t, _tier)),
+            9 => Case::Horn(super::c08::C08.decode(t, _tier)),
+            10 | 11 => Case::Rich { rich_goals: (0..4).map(|_| if t.chance(40) { super::c28::RICH_GOALS[t.choose(super::c28::RICH_GOALS.len())].to_string() } else { super::c28::gen_rich_goal(t) }).collect() },
             _ => {
                 let cfg = if t.chance(60) { GenCfg::horn_auto() } else { GenCfg::horn() };
-                super::c01::decode_pg(t, &cfg, &GoalCfg::full(), 4)
+                Case::Horn(super::c01::decode_pg(t, &cfg, &GoalCfg::full(), 4))
             }
         }
     }
-    fn describe(&self, case: &PG) -> Value {
-        case.describe()
+    fn describe(&self, case: &Case) -> Value {
+        match case {
+            Case::Horn(pg) => pg.describe(),
+            Case::Rich { rich_goals } => json!({"program": super::c28::RICH_PROGRAM, "goals": rich_goals}),
+        }
     }
-    fn shrink(&self, case: &PG) -> Vec<PG> {
-        case.shrink()
+    fn shrink(&self, case: &Case) -> Vec<Case> {
+        match case {
+            Case::Horn(pg) => pg.shrink().into_iter().map(Case::Horn).collect(),
+            Case::Rich { rich_goals } => (0..rich_goals.len())
+                .filter(|_| rich_goals.len() > 1)
+                .map(|i| {
+                    let mut g = rich_goals.clone();
+                    g.remove(i);
+                    Case::Rich { rich_goals: g }
+                })
+                .collect(),
+        }
     }
-    fn run(&self, case: &PG, _tier: Tier) -> CaseOut {
+    fn run(&self, case: &Case, tier: Tier) -> CaseOut {
+        match case {
+            Case::Horn(pg) => self.run_pg(pg, tier),
+            Case::Rich { rich_goals } => run_rich(rich_goals),
+        }
+    }
+}
+
+/// text-level differential over the fixed rich program (lifetime, const, integer / float unknowns, solver-opened
+/// quantifiers): the first three clauses of the compatibility relation need no model
+fn run_rich(goals: &[String]) -> CaseOut {
+    let mut out = CaseOut::default();
+    out.bump("fragment:rich-text");
+    let program = match lower_program(super::c28::RICH_PROGRAM) {
+        Ok(p) => p,
+        Err(e) => {
+            out.fail("lowering/program-rejected", format!("fixed rich program does not lower: {}", e));
+            return out;
+        }
+    };
+    let model = crate::model::Program::default();
+    let names = Names { program: &program, model: &model };
+    chalk_integration::tls::set_current_program(&program, || {
+        for g in goals {
+            let peeled = match catch(|| parse_and_peel(&program, g)) {
+                Ok(Ok(p)) => p,
+                _ => {
+                    out.bump("rich_goal_does_not_lower");
+                    continue;
+                }
+            };
+            let mut sols = vec![];
+            for sv in Sv::BOTH {
+                out.evals += 1;
+                match solve_fresh(&*program, sv.choice(), &peeled.goal, DEFAULT_BUDGET).0 {
+                    Run::Done(s) => sols.push(s),
+                    Run::Panic(m) => {
+                        out.fail(format!("{}:panic:{}", sv.name(), m), format!("[{}] panic: {}\ngoal: {}", sv.name(), m, g));
+                        break;
+                    }
+                    _ => {
+                        out.bump("outside_limits(not judged)");
+                        break;
+                    }
+                }
+            }
+            if sols.len() != 2 {
+                continue;
+            }
+            let (ra, rb) = (render(&sols[0]), render(&sols[1]));
+            if let Some((class, msg)) = incompatible(&names, &peeled, &sols[0], &sols[1], &mut out) {
+                out.fail(format!("{}:rich", class), format!("{}\n{}goal: {}\nslg: {}\nrec: {}", msg, super::c28::RICH_PROGRAM, g, ra, rb));
+            }
+            if ra != rb {
+                out.bump("rendered_answers_differ");
+            }
+            let definite = |s: &Option<Solution<_>>| matches!(s, None | Some(Solution::Unique(_)));
+            if definite(&sols[0]) || definite(&sols[1]) {
+                out.nontrivial.push(hash_of(&("rich", g)));
+                if out.sample.is_none() {
+                    out.sample = Some(json!({"program": "fixed rich program (harness/src/props/c28.rs)", "goal": g, "slg": ra, "rec": rb}));
+                }
+            }
+        }
+    });
+    out
+}
+
+impl C04 {
+    fn run_pg(&self, case: &PG, _tier: Tier) -> CaseOut {
         let mut out = CaseOut::default();
         let low = match lower_pg(case, &mut out) {
             Some(l) => l,
